@@ -74,7 +74,7 @@ Example C19_nonvacuous :
               m_imps := [ {| i_mod := 1; i_fn := 0; i_pcount := 2; i_ret := 1; i_ptypes := Some [1; 3]%N |};
                           {| i_mod := 1; i_fn := 0; i_pcount := 0; i_ret := 0; i_ptypes := None |} ] |} in
   (match serialize_into crc32 ser_consts (repeat 238%N (total_size ser_consts m)) m, serialize crc32 ser_consts m with
-   | Some a, Some b => list_N_eqb a b && Nat.eqb (length a) 150 | _, _ => false end) &&
+   | Some a, Some b => list_N_eqb a b && Nat.eqb (length a) 164 | _, _ => false end) &&
   (match encode_raw table {| r_op := 1; r_count := 9; r_slots := [5; 7; 7; 7]%N; r_types := [9]%N; r_bytelen := 77 |},
          encode_raw table {| r_op := 1; r_count := 0; r_slots := [5; 0; 0; 0]%N; r_types := []; r_bytelen := 0 |} with
    | Some a, Some b => list_N_eqb a b | _, _ => false end) &&
